@@ -168,7 +168,7 @@ class _Gen(object):
     r = self.r
     socks = [2 * tno, 2 * tno + 1]
     if op == "sleep":
-      return {"d": _dur(r)}
+      return {"d": -0.5 if r.chance(0.04) else _dur(r)}
     if op == "sleepabs":
       return {"at": (_tick(r) - r.pick([0, 0, 2048])) * TICK,
               "kw": r.chance(0.5)}
@@ -923,7 +923,6 @@ class Oracle(object):
         y = R.task_function(plain)()
         w["plain"] = True
         w["pv"] = pv
-        self.front += 1        # its AgainTask's return to the caller
       elif a.get("tf"):
         y = _interp_tf(self, L, sub, fr.depth + 1, fr.path + (i,),
                        holder)
@@ -949,6 +948,7 @@ class Oracle(object):
                 "function ran while its caller was not waiting" % L.tno)
       return
     fr.sub_result = ("val", pv)
+    self.front += 1            # its AgainTask now returns to the caller
     self.sim.ev("plain", L.tno, path, self.sim.now - T0)
 
   # -- a step is resumed -------------------------------------------------
@@ -1200,6 +1200,8 @@ class Oracle(object):
     self.P["send_short"] += 1
     if sk.exceptional():
       return        # exceptional condition reported by select: error path
+    if sk.tx_dead and calls and calls[-1][1] is None:
+      return        # send() failed fatally: the property is silent on errors
     if w["to"] is None:
       self.fail("send_value", where + ": Send without timeout returned %d "
                 "of %d bytes" % (v, len(data)))
@@ -1477,7 +1479,7 @@ def run_plan(plan):
   sim = S.Sim(mix(plan["seed"], "run"), calm=plan.get("calm", False))
   S.install(sim)
   sched = S.new_scheduler(sim)
-  sim.cycle_cap = 30000
+  sim.cycle_cap = 8000
   sim.cpu_cost_ticks = cfg.get("cpu", 0)
   sim.recv_mode = cfg.get("recv_mode", "all")
   sim.shuffle_ready = bool(cfg.get("shuffle"))
@@ -1512,8 +1514,9 @@ def run_plan(plan):
       tb = tb.tb_next
     import traceback
     txt = "".join(traceback.format_exception(type(e), e, e.__traceback__))
-    if last is not None and last.tb_frame.f_code.co_filename == __file__ \
-        or isinstance(e, S.WouldBlock):
+    if not isinstance(e, HarnessErr) and (
+        last is not None and last.tb_frame.f_code.co_filename == __file__
+        or isinstance(e, S.WouldBlock)):
       O.herr = txt[-2500:]
     else:
       where = "?"
@@ -1628,7 +1631,7 @@ def _drive(sim, sched, plan, O):
     O.cancel_timer(tm)
   # sweep: end every wait that only the environment can end
   sig = None
-  for _ in range(80):
+  for _ in range(2000):
     sim.advance(8.0)
     if bad():
       return
